@@ -239,6 +239,13 @@ class _SkipO2(Exception):
     pass
 
 
+class _SkipRX(Exception):
+    pass
+
+
+RX_MAX_VARS = 6
+
+
 def work(task):
     pattern, h, xbound, timeout = task["pattern"], task["h"], task["X"], task["timeout"]
     nbound = task["N"].get(len([t for t in parse_pattern(pattern) if t[0] == "var"]), 2)
@@ -291,6 +298,12 @@ def work(task):
         r, m = sol.check(*valid)
         rec("twin", "ok" if r == "sat" else "vacuous", t0)
 
+        # patterns with more than 6 variables: z3's sequence solver does not decide O1/O3/O4 within the limits even at
+        # value length 1; they are decided by the exact engine (O2x on the emitted functions) alone, and this is recorded
+        if len(names) > RX_MAX_VARS:
+            res.append(("rx-skipped", "info", 0.0, {"variables": len(names)}))
+            raise _SkipRX()
+
         # O1
         t0 = time.time()
         r, m = sol.check(*valid, z3.Not(z3.InRe(built, L)))
@@ -328,6 +341,15 @@ def work(task):
 
     except _SkipO2:
         pass
+    except _SkipRX:
+        try:
+            t0 = time.time()
+            status, cex, stats = bstr_roundtrip(h, toks, seps, xbound)
+            rec("O2x", status, t0, cex)
+            res.append(("O2x-stats", "info", 0.0, stats))
+        except (rx.Unsupported, bstr.Unsupported) as e:
+            res.append(("encode", "unknown", 0.0, {"detail": f"{type(e).__name__}: {e}"}))
+        return pattern, res, sol.seconds, sol.queries
     try:
         # O3: any matched path rebuilds to itself
         t0 = time.time()
@@ -504,6 +526,7 @@ def body(chk: core.Check):
     chk.bound("segment_value_length_BSTR_by_number_of_variables", {**X, "note": "the ** variable gets +2"})
     chk.bound("path_length_O3", "3*N + len(pattern)")
     chk.bound("solver_timeout_s", timeout)
+    chk.bound("rx_obligations_up_to_variables", f"{RX_MAX_VARS} (deeper patterns: exact engine O2x only)")
     chk.bound("fallbacks_on_unknown", "O1 at value length 1; O4 at |s| <= len(pattern) + 2*variables (the kind of the obligation says so)")
     chk.assumptions += [
         "segment values are non-empty and contain neither a separator of the pattern nor a newline "
@@ -588,6 +611,9 @@ def body(chk: core.Check):
     by_pat = {t["pattern"]: t["h"] for t in tasks}
     for pattern, res, secs, queries in results:
         for kind, status, sec, cex in res:
+            if kind == "rx-skipped":
+                chk.extra.setdefault("patterns_decided_by_the_exact_engine_only", []).append(pattern)
+                continue
             if status == "info":
                 chk.sample({"pattern": pattern, "bstr": cex}, limit=4)
                 continue
